@@ -17,7 +17,8 @@ func init() {
 		decided: "which sentinel each construct consumes and where control goes on each edge, at any nesting (nesting is handled by the recursion of evalStatement, whose summary is used at every level): each loop's body evaluation consumes exactly break and continue and lets every other outcome through; after a break the body is never evaluated again, after a continue / normal completion the loop goes on; the for post-expression is evaluated on every path from a completed or continued body to the next condition test and on no path from a break, the initialiser once before the loop with its error propagated; if / else bodies are gated by the condition's truthiness and their outcome returned unchanged; return stores the return slot on every path before raising and the call consumes it, reading the slot only then; for-in binds element / index (arrays), key / value in sorted key order (objects), character / byte offset (strings) before each body evaluation; every statement and expression node type the parser can build has an arm in the evaluator." +
 			" for-in over a string binds Go's own range over the string (byte offsets); no err.Error() is applied to a value that may be a control-flow signal (signals keep their identity up to their consumer); every test against errNext / errExit sits in a rule driver." +
 			" The fuzzer's iteration cap applies only under Evaluator.fuzzing." +
-			" Each for-in binding is made in every iteration; a return statement carries a value exactly where the statement-end test answered false.",
+			" Each for-in binding is made in every iteration; a return statement carries a value exactly where the statement-end test answered false." +
+			" The statement parser stores into a statement node only what its own parser calls returned (no restructuring of parsed statements).",
 		notDecided: "the parser's dangling-else attachment (inherent in the recursive descent: an else is consumed by the innermost if still open; not separately checked); element order of Go's range over slices / strings (language semantics).",
 	})
 }
